@@ -289,7 +289,11 @@ func runPipeline(f []string) string {
 	if strings.HasPrefix(fusion, "0") {
 		g = g.WithFusion(stream.FuseNone)
 	}
-	if strings.HasSuffix(fusion, "u") {
+	// unbounded mailboxes: a Mailbox VALUE in a stage's config is one mailbox instance, so it is attached per
+	// run (pl2 runs the same graph twice; sharing one mailbox instance between two runs' actors would be a
+	// harness artifact, not the graph's doing)
+	unbounded := strings.HasSuffix(fusion, "u")
+	if unbounded && f[0] != "pl2" {
 		g = stream.VerifUnboundedMailboxes(g)
 	}
 	// pl2: the SAME RunnableGraph value is materialised twice, one run after the other ("the same graph may
@@ -301,7 +305,11 @@ func runPipeline(f []string) string {
 			got = nil
 			mu.Unlock()
 			hooks.Store(0)
-			h, err := g.Run(ctx, sys)
+			gr := g
+			if unbounded {
+				gr = stream.VerifUnboundedMailboxes(g)
+			}
+			h, err := gr.Run(ctx, sys)
 			if err != nil {
 				return "run-error " + err.Error()
 			}
